@@ -81,6 +81,8 @@ func runC05(p *Program, r *Report) {
 	c05noreacquire(p, r, env, "C05.noreacquire")
 	c06recheckOnly(p, r)
 	c07funnel(p, r, "C05.funnel")
+	cSpawns(p, r, "C05.spawn")
+	cClosers(p, r, "C05.closers")
 	// summaries into the evidence
 	sum := map[string]string{}
 	for _, fn := range p.Funcs {
